@@ -122,11 +122,11 @@ func runC04(c *Ctx) {
 			// expected label
 			okLabel := false
 			objs := []string{"structName"}
-			if li := strings.LastIndex(fi, ".fieldInfos["); pc[`eq("",structName)`] == 1 && li < 0 {
+			if li := strings.LastIndex(fi, ".fieldInfos["); pc[outermostAtom(p)] == 1 && li < 0 {
 				labelBad = append(labelBad, at+": the field information the nested value is read with does not come from the analysed type's field list: "+shorten(fi, 80))
 				continue
 			}
-			if pc[`eq("",structName)`] == 1 { // outermost object: the path is the type's name
+			if pc[outermostAtom(p)] == 1 { // outermost object: the path is the type's name
 				objs = append(objs, strings.TrimSuffix(fi[:strings.LastIndex(fi, ".fieldInfos[")], "")+".name")
 			}
 			for _, obj := range objs {
